@@ -679,6 +679,37 @@ pub fn c12(thorough: bool, rng: &mut Rng, out: &mut Out) {
     run_walks("C12", rng, out, nw, steps, 3);
     extreme_geometries("C12", thorough, out);
     many_pages("C12", thorough, out);
+    // configuration blocks that keep a type's code and geometry bytes and carry extreme values everywhere else
+    for t in TYPES {
+        for fill in [0xFFu8, 0x00, 0x80, 0x7F] {
+            let base = t.to_bytes();
+            let mut b = vec![fill; 16];
+            b[0] = base[0];
+            b[1] = base[1];
+            if base[0] == 4 {
+                for k in 4..9 {
+                    b[k] = base[k];
+                }
+            } else {
+                b[5] = base[5];
+                b[7] = base[7];
+            }
+            let (w, h) = t.dimensions();
+            let page = Page::new(PageId(1), w, h);
+            let mut line = format!("vbus M,0005 RO,0005,0 SD,0000,{} CS,0001 QS,0005 RO,0005,1", to_hex(&b));
+            let mut n = 0;
+            for (ci, c) in page.as_bytes().chunks(16).enumerate() {
+                line.push_str(&format!(" SD,{:04X},{}", ci * 16, to_hex(c)));
+                n += 1;
+            }
+            line.push_str(&format!(" CS,{:04X} QS,0005", n));
+            let i = out.case(line, true);
+            out.stat("vsign.known-code-extreme-rest");
+            if out.impls[i].contains("PANIC") {
+                out.fail(i, format!("C12 a virtual sign panicked on a block with the code and geometry of {:?} and extreme other fields", t));
+            }
+        }
+    }
     if thorough {
         // 70000 accepted chunks: the chunk counter must not overflow
         let mut l = format!("vbus M,0003 RO,0003,0 SD,0000,{} CS,0001 RO,0003,1", to_hex(&tiny_cfg(2, 8, false)));
@@ -783,7 +814,7 @@ pub fn c13(thorough: bool, rng: &mut Rng, out: &mut Out) {
     bfs(out, PageFlipStyle::Automatic, cap);
     let (nw, steps) = if thorough { (30_000, 150) } else { (600, 60) };
     run_walks("C13", rng, out, nw, steps, 1);
-    known_header_variants(out);
+    known_header_variants("C13", out);
 }
 
 /// Complete, legal sessions on signs of extreme configured geometry (far wider or taller than any catalogued
@@ -851,7 +882,7 @@ pub fn many_pages(prop: &str, thorough: bool, out: &mut Out) {
 /// partly blank, one off): the sign's size is what the geometry bytes say, so a page of the catalogued size
 /// must not be stored unless the two happen to need the same number of bytes, and whatever is stored has the
 /// derived dimensions.
-fn known_header_variants(out: &mut Out) {
+pub fn known_header_variants(prop: &str, out: &mut Out) {
     for t in TYPES {
         let base = t.to_bytes().to_vec();
         let fam = base[0];
@@ -876,6 +907,38 @@ fn known_header_variants(out: &mut Out) {
         let mut v = base.clone();
         v[wis[0]] = 0;
         variants.push(v);
+        // two blocks with the SAME type code and different geometry, in one phase and across a failed configuration:
+        // the last accepted block decides the size, whatever came before
+        for b in variants.iter().take(4) {
+            let canon = base.clone();
+            for (first, second) in [(b.clone(), canon.clone()), (canon.clone(), b.clone())] {
+                let (w2, h2) = if fam == 4 { (second[5] as u32 + second[6] as u32 + second[7] as u32 + second[8] as u32, second[4] as u32) } else { (second[7] as u32, second[5] as u32) };
+                for failed_between in [false, true] {
+                    let mut line = format!("vbus M,0005 RO,0005,0 SD,0000,{}", to_hex(&first));
+                    if failed_between {
+                        line.push_str(&format!(" CS,0007 QS,0005 RO,0005,0 SD,0000,{} CS,0001", to_hex(&second)));
+                    } else {
+                        line.push_str(&format!(" SD,0000,{} CS,0002", to_hex(&second)));
+                    }
+                    line.push_str(" QS,0005 RO,0005,1");
+                    let mut n = 0;
+                    if w2 > 0 && h2 > 0 {
+                        let page = Page::new(PageId(3), w2, h2);
+                        for (ci, c) in page.as_bytes().chunks(16).enumerate() {
+                            line.push_str(&format!(" SD,{:04X},{}", ci * 16, to_hex(c)));
+                            n += 1;
+                        }
+                    }
+                    line.push_str(&format!(" CS,{:04X} QS,0005", n));
+                    let i = out.case(line, true);
+                    out.stat("vsign.same-code-other-geometry-twice");
+                    let last = out.impls[i].rsplit(' ').next().unwrap_or("").to_string();
+                    if w2 > 0 && h2 > 0 && !last.contains("/1/") {
+                        out.fail(i, format!("{} after two blocks with the same type code the sign does not hold the {}x{} page the last block's geometry calls for: {}", prop, w2, h2, last));
+                    }
+                }
+            }
+        }
         for b in variants {
             let (w, h) = if fam == 4 { (b[5] as u32 + b[6] as u32 + b[7] as u32 + b[8] as u32, b[4] as u32) } else { (b[7] as u32, b[5] as u32) };
             let (cw, ch) = t.dimensions();
@@ -892,7 +955,7 @@ fn known_header_variants(out: &mut Out) {
                 out.stat("vsign.known-code-other-geometry");
                 if let Some((vw, vh, _)) = vsign_page_after_config(&b, &page) {
                     if (vw, vh) != (w, h) {
-                        out.fail(i, format!("C13 a virtual sign configured with block {} (geometry bytes say {}x{}) holds a {}x{} page", to_hex(&b), w, h, vw, vh));
+                        out.fail(i, format!("{} a virtual sign configured with block {} (geometry bytes say {}x{}) holds a {}x{} page", prop, to_hex(&b), w, h, vw, vh));
                     }
                 }
             }
